@@ -19,6 +19,7 @@ package ice
 //   gather2 (two GatherCandidates queued behind a held task loop) | grg (GatherCandidates, Restart, GatherCandidates queued)
 //   ifaces <table>  (continual gathering: replace the fake Net's interface table; zero virtual time)
 //   hold            (re-arm the gate of the fake UDP mux: the next GetListenAddresses parks until `release`)
+// cfg key tc=<one letter per TURN URL>: c = with credentials, u = empty username, p = empty password (absent = all c)
 // cfg keys for continual gathering: cg=1 (WithContinualGatheringPolicy(GatherContinually)), mi=<ms> (WithNetworkMonitorInterval;
 //   0 = the default 2 s); such sessions print one more field, lk=<lastKnownInterfaces, sorted>.
 // addresses are tokens <class>.<idx>: g4 l4 k4 u4 (IPv4 global/loopback/link-local/unspecified),
@@ -225,6 +226,7 @@ type gCfg struct {
 	tu        int
 	busy      map[string]bool // "<addrtok>:<port>"
 	tf        int             // 0 ok, 1 factory fails, 2 Listen fails
+	tc        string          // per TURN URL: c = credentials, u = empty username, p = empty password ("" = all c)
 	rr        string          // relay rewrite: "" | drop | rep | app
 	sr        string          // srflx rewrite: "" | rep | app | drop
 	hr        string          // host rewrite rule: "" | <rep|app>:<pinned local|->:<iface|->:<ext+ext+...>
@@ -281,6 +283,9 @@ func gParseCfg(s string) *gCfg {
 		c.busy[b] = true
 	}
 	c.tf, _ = strconv.Atoi(m["tf"])
+	if v := m["tc"]; v != "-" {
+		c.tc = v
+	}
 	if v := m["rr"]; v != "-" {
 		c.rr = v
 	}
@@ -1053,8 +1058,17 @@ func (w *gWorld) newAgent() (*Agent, error) {
 		ac.Urls = append(ac.Urls, &stun.URI{Scheme: stun.SchemeTypeSTUN, Host: fmt.Sprintf("stun%d.test", k), Port: 3478, Proto: stun.ProtoTypeUDP})
 	}
 	for k := 0; k < c.tu; k++ {
+		user, pass := "user", "pass"
+		if k < len(c.tc) {
+			switch c.tc[k] {
+			case 'u':
+				user = ""
+			case 'p':
+				pass = ""
+			}
+		}
 		ac.Urls = append(ac.Urls, &stun.URI{Scheme: stun.SchemeTypeTURN, Host: fmt.Sprintf("turn%d.test", k), Port: 3478,
-			Proto: stun.ProtoTypeUDP, Username: "user", Password: "pass"})
+			Proto: stun.ProtoTypeUDP, Username: user, Password: pass})
 	}
 	var opts []AgentOption
 	var rules []AddressRewriteRule
